@@ -136,7 +136,8 @@ def run_rc_unit(res, rundir, unit, variants, tier, seed, known_preds, scale, tim
     if not exes:
         return
     env = dict(os.environ)
-    env["ASAN_OPTIONS"] = "detect_leaks=0:abort_on_error=1:handle_abort=0:allocator_may_return_null=1:detect_stack_use_after_return=1"
+    # quarantine / stack-depot bounded: long thorough runs otherwise grow to several GB per sanitised variant
+    env["ASAN_OPTIONS"] = "detect_leaks=0:abort_on_error=1:handle_abort=0:allocator_may_return_null=1:detect_stack_use_after_return=1:quarantine_size_mb=64:malloc_context_size=12"
     env["UBSAN_OPTIONS"] = "print_stacktrace=1:halt_on_error=1"
     vorder = [v for v in variants if v.name in exes]
     # which checks does this driver own
